@@ -693,51 +693,92 @@ fn main() {
         });
     }
 
-    let mut ctx = Ctx {
-        stores: HashMap::new(),
-        comp: comp::Components::new(),
-        chars: BTreeSet::new(),
-        langs_seen: BTreeSet::new(),
-        reg_live: BTreeSet::new(),
-        reg_lang: HashMap::new(),
-    };
     let build = if cfg!(lucid_suggest_verif) { "checked" } else { "shipping" };
     writeln!(out, "{}", json!({"op": "header", "build": build, "debug_assertions": cfg!(debug_assertions)})).unwrap();
 
-    let mut n: u64 = 0;
+    // every case runs on a thread of its own: the crate keeps scratch state in thread-locals (distance matrix, Jaccard
+    // buffers, match vectors, the top-level registry), and a case is meant to start from a process that has done nothing
+    let mut ops: Vec<Value> = Vec::new();
     for line in input.lines() {
         let line = line.expect("read script");
         if line.trim().is_empty() {
             continue;
         }
-        let op: Value = serde_json::from_str(&line).expect("script line is JSON");
-        n += 1;
-        tick.store(n, Ordering::Relaxed);
-        let mut ev: Map<String, Value> = match &op {
-            Value::Object(m) => m.clone(),
-            _ => Map::new(),
-        };
-        ev.remove("want");
-        let name = get_s(&op, "op").to_string();
-        match name.as_str() {
-            "case" => {
-                ctx.stores.clear();
-                ctx.comp.reset();
-                registry_reset(&mut ctx);
+        ops.push(serde_json::from_str(&line).expect("script line is JSON"));
+    }
+    let mut cases: Vec<Vec<Value>> = Vec::new();
+    for op in ops {
+        if get_s(&op, "op") == "case" || cases.is_empty() {
+            cases.push(Vec::new());
+        }
+        cases.last_mut().unwrap().push(op);
+    }
+    let mut all_chars: BTreeSet<u32> = BTreeSet::new();
+    let mut all_langs: BTreeSet<String> = BTreeSet::new();
+    let mut n: u64 = 0;
+    for case_ops in cases {
+        let base = n;
+        n += case_ops.len() as u64;
+        let tick2 = tick.clone();
+        let handle = std::thread::Builder::new().stack_size(16 << 20).spawn(move || {
+            let mut ctx = Ctx {
+                stores: HashMap::new(),
+                comp: comp::Components::new(),
+                chars: BTreeSet::new(),
+                langs_seen: BTreeSet::new(),
+                reg_live: BTreeSet::new(),
+                reg_lang: HashMap::new(),
+            };
+            let mut events = Vec::new();
+            for (k, op) in case_ops.iter().enumerate() {
+                tick2.store(base + k as u64 + 1, Ordering::Relaxed);
+                let mut ev: Map<String, Value> = match op {
+                    Value::Object(m) => m.clone(),
+                    _ => Map::new(),
+                };
+                ev.remove("want");
+                let name = get_s(op, "op").to_string();
+                match name.as_str() {
+                    "case" => {}
+                    "new" | "drop" | "add" | "clear" | "limit" | "markers" | "search" | "prepare" => op_store(&mut ctx, op, &mut ev),
+                    "tok" => op_tok(&mut ctx, op, &mut ev),
+                    "r_create" | "r_destroy" | "r_add" | "r_limit" | "r_markers" | "r_search" | "r_clear" => op_registry(&mut ctx, op, &mut ev),
+                    "dl" | "jac" | "lsort" | "dlnew" | "jacnew" | "wm" | "tm" | "gate" => comp::op_component(&mut ctx, op, &mut ev),
+                    _ => {
+                        ev.insert("skipped".into(), json!("unknown op"));
+                    }
+                }
+                let mut ev = Value::Object(ev);
+                text_fields_to_cps(&mut ev);
+                ctx.note_chars(&ev);
+                events.push(ev);
             }
-            "new" | "drop" | "add" | "clear" | "limit" | "markers" | "search" | "prepare" => op_store(&mut ctx, &op, &mut ev),
-            "tok" => op_tok(&mut ctx, &op, &mut ev),
-            "r_create" | "r_destroy" | "r_add" | "r_limit" | "r_markers" | "r_search" | "r_clear" => op_registry(&mut ctx, &op, &mut ev),
-            "dl" | "jac" | "lsort" | "dlnew" | "jacnew" | "wm" | "tm" | "gate" => comp::op_component(&mut ctx, &op, &mut ev),
-            _ => {
-                ev.insert("skipped".into(), json!("unknown op"));
+            registry_reset(&mut ctx);
+            (events, ctx.chars, ctx.langs_seen)
+        }).expect("spawn case thread");
+        match handle.join() {
+            Ok((events, chars, langs)) => {
+                for ev in events {
+                    writeln!(out, "{}", ev).unwrap();
+                }
+                all_chars.extend(chars);
+                all_langs.extend(langs);
+            }
+            Err(_) => {
+                // the case's thread died outside catch_unwind (should not happen): the trace ends here
+                out.flush().unwrap();
+                std::process::exit(4);
             }
         }
-        let mut ev = Value::Object(ev);
-        text_fields_to_cps(&mut ev);
-        ctx.note_chars(&ev);
-        writeln!(out, "{}", ev).unwrap();
     }
+    let mut ctx = Ctx {
+        stores: HashMap::new(),
+        comp: comp::Components::new(),
+        chars: all_chars,
+        langs_seen: all_langs,
+        reg_live: BTreeSet::new(),
+        reg_lang: HashMap::new(),
+    };
     tick.store(u64::MAX, Ordering::Relaxed);
     let ct = chartable(&mut ctx);
     writeln!(out, "{}", ct).unwrap();
